@@ -169,11 +169,12 @@ net = rxn.net_stoich(keys)
 ion = 1
 for k_, nu in zip(keys, net):
     if k_ != solid: ion = ion * d[keys.index(k_)] ** nu
-fw = es._fw_cond_factory(ri)(xv, None)
+pv = np.array([Fraction(1, 7 + i) for i in range(len(keys))] + list(Kv), dtype=object)   # initial concentrations (different from x), constants
+fw = es._fw_cond_factory(ri)(xv, pv)
 expect = (ion > Kv[ri] * Fraction(1 + 1e-14)) if net[si] < 0 else (ion * Fraction(1 + 1e-14) < Kv[ri])
 if bool(fw) != bool(expect): bad.append("fw_cond = %%s but quotient of the dissolved state %%s vs K %%s" %% (fw, ion, Kv[ri]))
 for NS in (NumSysLin, NumSysLog):
-    bw = es._bw_cond_factory(ri, NS.small)(xv, None)
+    bw = es._bw_cond_factory(ri, NS.small)(xv, pv)
     if bool(bw) != (not (xv[si] < NS.small)): bad.append("bw_cond(%%s) = %%s for solid amount %%s" %% (NS.__name__, bw, xv[si]))
 for b in bad: print("MISMATCH", b)
 sys.exit(1 if bad else 0)
@@ -192,7 +193,7 @@ def task_precip(systems):
         es, Ks, keys = build(eq_strs)
         n = len(keys)
         x = [Real("x%d" % i) for i in range(n)]
-        assum = [v.t >= 0 for v in x] + [k.t > 0 for k in Ks]
+        assum = [v.t >= 0 for v in x] + [k.t > 0 for k in Ks] + [z3.Real("p0_%d" % i) >= 0 for i in range(n)]
         ri = es.phase_transfer_reaction_idxs()[0]
         rxn = es.rxns[ri]
         solid = [k for k in keys if es.substances[k].phase_idx > 0][0]
@@ -200,12 +201,15 @@ def task_precip(systems):
         net = rxn.net_stoich(keys)
         B, ck = es.composition_balance_vectors()
 
+        pvec = [Real("p0_%d" % i) for i in range(n)] + list(Ks)  # the solver's parameter vector: initial concentrations, constants
+
         def fn():
             xv = np.array(x, dtype=object)
+            pv = np.array(pvec, dtype=object)
             d = es.dissolved(xv)
-            fw = bool(es._fw_cond_factory(ri)(xv, None))
-            bw0 = bool(es._bw_cond_factory(ri, NumSysLin.small)(xv, None))
-            bw1 = bool(es._bw_cond_factory(ri, NumSysLog.small)(xv, None))
+            fw = bool(es._fw_cond_factory(ri)(xv, pv))
+            bw0 = bool(es._bw_cond_factory(ri, NumSysLin.small)(xv, pv))
+            bw1 = bool(es._bw_cond_factory(ri, NumSysLog.small)(xv, pv))
             return d, fw, bw0, bw1
 
         def goal(p, twin=False):
